@@ -188,7 +188,7 @@ def run_case(ctx, rng, c, workdir):
 
     g = carts.make_game(regions, code=code, version=version)
     # the same destination path is reused for the whole shard: a write must take its label from what is at the path NOW
-    dest = os.path.join(workdir, 'cart.p8.png')
+    dest = os.path.join(workdir, BASE[0] + '.p8.png')
     if os.path.exists(dest):
         os.remove(dest)
     label_rows = blank_label_rows()
@@ -209,10 +209,10 @@ def run_case(ctx, rng, c, workdir):
         elif entry == 'cli':
             # `p8tool writep8|luafmt in.p8.png` writes in_fmt.p8.png; an earlier in_fmt.p8.png is its label source
             from pico8 import tool
-            src = os.path.join(workdir, 'in.p8.png')
+            src = os.path.join(workdir, BASE[0] + '-in.p8.png')
             with open(src, 'wb') as fh:
                 fh.write(rc.write_p8png(regions, rc.raw_code_area(code), version))
-            out = os.path.join(workdir, 'in_fmt.p8.png')
+            out = os.path.join(workdir, BASE[0] + '-in_fmt.p8.png')
             if os.path.exists(out):
                 os.remove(out)
             if dest_exists:
@@ -358,9 +358,15 @@ def run_case(ctx, rng, c, workdir):
         os.remove(dest)
 
 
+BASE = ['cart']     # base name of the shard's destination file (one of vf.carts.CART_BASENAMES per shard)
+
+
 def run_shard(spec, ctx):
     rng = ctx.rng
     workdir = tempfile.mkdtemp(prefix='vf-c04-')
+    digits = ''.join(ch for ch in str(spec.get('name', '0')) if ch.isdigit())
+    BASE[0] = carts.cart_basename(int(digits or 0))
+    ctx.feature('file_name:' + BASE[0])
     try:
         # oracle self-test: reference PNG encoder/decoder and stego are inverse on random data
         rows = [bytearray(carts.random_bytes(rng, rc.CART_W * 4)) for _ in range(rc.CART_H)]
